@@ -12,11 +12,43 @@ NOISE_VARIANTS = {'Continue', 'Break', 'Some', 'Ok', 'Err', 'None'}
 
 
 class Origins:
-    def __init__(self, body, max_depth=12):
+    def __init__(self, body, max_depth=12, resolve_upvars=False):
         self.b = body
         self.fn = body.fn
         self.max_depth = max_depth
         self._memo = {}
+        # resolve_upvars: print a captured variable of a closure as its origin in the enclosing function (instead of its name),
+        # so that `xs.iter().all(|x| f(x, limit))` and `for x in xs { if !f(x, limit) {..} }` print `limit` alike
+        self.resolve_upvars = resolve_upvars
+        self._upvar_memo = {}
+
+    def _parent_origin(self, field):
+        if field in self._upvar_memo:
+            return self._upvar_memo[field]
+        out = None
+        try:
+            key = self.fn['key']
+            pkey = key.rsplit('::{closure#', 1)[0]
+            P = self.b.P
+            pfn = P.fns.get(pkey)
+            if pfn is not None and pkey != key:
+                pbody = P.body(pfn)
+                po = getattr(pbody, '_upvar_origins', None)
+                if po is None:
+                    po = Origins(pbody, self.max_depth, resolve_upvars=True)
+                    pbody._upvar_origins = po
+                idx = int(field[1:])
+                for b in pbody.B:
+                    if b.get('cu'):
+                        continue
+                    for st in b['st']:
+                        rv = st['rv']
+                        if rv['k'] == 'agg' and rv['what'] == 'closure:' + key and idx < len(rv['ops']):
+                            out = po.op_str(rv['ops'][idx])
+        except Exception:
+            out = None
+        self._upvar_memo[field] = out
+        return out
 
     def place_str(self, pl, depth=0, seen=()):
         base = self.local_str(pl['l'], depth, seen)
@@ -27,6 +59,8 @@ class Origins:
             fs = [e for e in proj if e.startswith('.')]
             if fs and fs[0] in self.b.upvars:
                 base = self.b.upvars[fs[0]]
+                if self.resolve_upvars:
+                    base = self._parent_origin(fs[0]) or base
                 i = proj.index(fs[0])
                 proj = proj[i + 1:]
         for e in proj:
